@@ -64,14 +64,3 @@ Definition expect_of (h : hdr) (its : list item) (d : damage) : expect :=
 
 Definition spec_damages (h : hdr) (its : list item) (ds : list damage) : list expect :=
   map (expect_of h its) ds.
-
-(* does an outcome meet an expectation? (intact = what the intact archive reads as) *)
-Definition meets (intact : outcome) (e : expect) (o : outcome) : bool :=
-  match e, o with
-  | EErr, OErr _ => true
-  | EErr, _ => false
-  | EOkSame, OOk its =>
-      match intact with OOk its0 => true | _ => false end
-  | EOkSame, _ => false
-  | EAny, _ => true
-  end.
